@@ -93,8 +93,10 @@ def run_case(spec, work):
 
     base, err = run(w)
     if base is None:
-        return {'violations': [], 'inconclusive': f'base run raised {err}',
-                'counters': {}, 'features': None, 'nontrivial': False}
+        return {'violations': [{
+                    'sig': 'C17:mapping-raised-on-valid-input',
+                    'msg': f'base run raised: {err}'}],
+                'counters': {}, 'features': ['raised'], 'nontrivial': True}
 
     # (C) dropping a level the taxonomy does not contain changes nothing
     wc = mapworld.derive_world(w, 'absent',
